@@ -10,6 +10,7 @@ import (
 	"strconv"
 	"strings"
 	"sync"
+	"time"
 
 	"github.com/sarchlab/mgpusim/v4/amd/insts"
 
@@ -291,6 +292,14 @@ func runChild() {
 	if seed == 0 {
 		seed = 1
 	}
+	go func() { // do not outlive the owning process
+		for {
+			time.Sleep(time.Second)
+			if os.Getppid() == 1 {
+				os.Exit(4)
+			}
+		}
+	}()
 	out := newChildOut()
 	arch := gcnasm.Arch(p.Arch)
 	c := &ctx{arch: arch, out: out, slow: os.Getenv("VERIF_C04_SLOW") != ""}
